@@ -1,6 +1,15 @@
 import Driver.Proto
 import Driver.FormulaCmd
-/-! `ptdriver <sub-command>`: one operation per input line, one `R …` line per reply. -/
+import Driver.GrammarCmd
+import Driver.LoaderCmd
+import Driver.CoreCmd
+import Driver.LazyCmd
+import Driver.NeutronCmd
+import Driver.XrayCmd
+import Driver.ActivationCmd
+import Driver.FastaCmd
+/-! `ptdriver <sub-command>`: one operation per input line, one `R …` line per reply.
+Each sub-command module exports `St`, `init : St` and `handle : St → Toks → IO St`. -/
 open Driver
 
 partial def loop {σ : Type} (h : IO.FS.Stream) (step : σ → Toks → IO σ) (st : σ) : IO Unit := do
@@ -12,5 +21,13 @@ partial def loop {σ : Type} (h : IO.FS.Stream) (step : σ → Toks → IO σ) (
 def main (args : List String) : IO UInt32 := do
   let stdin ← IO.getStdin
   match args with
-  | ["formula"] => loop stdin FormulaCmd.handle {}; pure 0
-  | _ => IO.eprintln "usage: ptdriver <formula|…>"; pure 2
+  | ["formula"] => loop stdin FormulaCmd.handle FormulaCmd.init; pure 0
+  | ["grammar"] => loop stdin GrammarCmd.handle GrammarCmd.init; pure 0
+  | ["loader"] => loop stdin LoaderCmd.handle LoaderCmd.init; pure 0
+  | ["core"] => loop stdin CoreCmd.handle CoreCmd.init; pure 0
+  | ["lazy"] => loop stdin LazyCmd.handle LazyCmd.init; pure 0
+  | ["neutron"] => loop stdin NeutronCmd.handle NeutronCmd.init; pure 0
+  | ["xray"] => loop stdin XrayCmd.handle XrayCmd.init; pure 0
+  | ["activation"] => loop stdin ActivationCmd.handle ActivationCmd.init; pure 0
+  | ["fasta"] => loop stdin FastaCmd.handle FastaCmd.init; pure 0
+  | _ => IO.eprintln "usage: ptdriver <formula|grammar|loader|core|lazy|neutron|xray|activation|fasta>"; pure 2
